@@ -90,6 +90,25 @@ CLAIMED = {
         technique="TLA+ policy spec model-checked over all fault plans + exhaustive fault injection with TLC trace validation",
         ref="5/C21",
     ),
+    "C19": dict(
+        level="exploration",
+        text="RattleScheme.tla writes one RATTLE step as a set of symbolic equations (symmetric midpoint kinematics, the two momentum stages, position "
+             "and velocity constraints, what holds on entry). TLC checks that the set is its own adjoint (end points swapped, h -> -h: a symmetric "
+             "method, hence of even order >= 2) and invariant under the reflection u -> -u, h -> -h (reversible), and rejects four plausible "
+             "deviations (forces at the end point in stage 2, explicit kinematics, mass matrix of the start point in stage 2, no velocity stage). "
+             "Real RATTLE runs on random conservative systems (rigid-bar and point-mass pendula and chains on revolute / spherical / fixed-distance "
+             "joints, springs in force form, gravity, consistent random initial velocities): per step the residuals of exactly these equations are "
+             "evaluated from the stored states and the hook data (midpoint velocity, stage percussions) with the System's routines; per system one "
+             "run forward, velocities reversed, forward again on a copy must return to the initial state; the energy-error ratio under step "
+             "halving and the trend of the energy error over a long horizon are measured. TLC's trace mode judges every record.",
+        note="Exploration: thresholds are float comparisons in the harness (stage residuals ok below 1e-8 / violated above 1e-6 with solver tolerance "
+             "1e-11; return error ok below 1e-7 / violated above 1e-5; energy ratio ok in [3, 5.5] / violated below 2.4 or above 12; energy trend ok "
+             "below half / violated above three times the oscillation amplitude; not judged in between). Order and absence of drift are asymptotic "
+             "statements: the model contributes the symmetry of the equation set (which implies even order) and the binding shows that the code "
+             "solves that set; the measurements are supplements with wide bands.",
+        technique="TLA+ symbolic model of the RATTLE step (symmetry / reversibility of the equation set) model-checked by TLC + TLC trace validation of stage residuals and run-level observations from real runs",
+        ref="5/C19",
+    ),
     "C20": dict(
         level="model_checking",
         text="TimeGrid.tla states the Solution contract in exact tick arithmetic (step count = index of the first grid point at or after t1, "
@@ -441,7 +460,6 @@ CLAIMED = {
 
 NOT_APPLICABLE = {
     "C03": "derivatives of transcendental SO(3)/SE(3) maps down to 1e-9 angles: real analysis / high-precision arithmetic, no state, no rational core for TLC (32-bit integers, no reals)",
-    "C19": "convergence order, secular energy drift and reversibility up to tolerance are asymptotic real-valued trajectory properties; the rational fragment does not exercise constraints or stage 2",
 }
 
 NOT_BUILT = "in family (see DESIGN.md section 5) but its check is not built yet"
